@@ -504,6 +504,9 @@ on call Coordinator.alleviateShards(c, shards) in Coordinator.runOnce
    assert @lemma_status_wf1 allEntriesWf(lastGlobalScrapeStatus)
 on call Coordinator.assignNoScrapingTargets(c, shards, act, g) in Coordinator.runOnce
    assert @lemma_status_wf2 allEntriesWf(g)
+   // C08 "not assigned a second time elsewhere" is stated in assignNoScrapingTargets relative to the shards it is given:
+   // it must be given every shard of the replica that answered, in sync or not
+   assert[C08] @every_reachable_shard_counts_as_a_holder forall s in shardsInfo :: s in shards
 
 ghost global gEarlyScaleFailed int
 on after shard.Manager.ChangeScale(x) in Coordinator.runOnce when !gSpaceKnown
